@@ -81,8 +81,19 @@ CtxProg(cx, i) ==
       [] cx = "idxassign"  -> <<SAssign(EIndex(EVar(A), EInt(0)), EInt(9)), SPrint(EVar(A))>>
       [] cx = "propassign" -> <<SAssign(EProp(EVar(A), <<97>>), EInt(9)), SPrint(EVar(A))>>
 
+\* == / != reaching a pair of kinds *inside* containers: never a silent boolean for a mismatch
+EqNest(op, i, j, how) ==
+    Prelude \o
+    CASE how = "list" -> <<SPrint(EBin(op, EList(<<EInt(1), Ex(i)>>), EList(<<EInt(1), Ex(j)>>)))>>
+      [] how = "obj"  -> <<SPrint(EBin(op, EObj(<<Pair(EStr(<<107>>), Ex(i))>>), EObj(<<Pair(EStr(<<107>>), Ex(j))>>)))>>
+      [] how = "deep" -> <<SDecl(EVar(A), EList(<<EObj(<<Pair(EStr(<<107>>), EList(<<Ex(i)>>))>>)>>)),
+                           SDecl(EVar(Bn), EList(<<EObj(<<Pair(EStr(<<107>>), EList(<<Ex(j)>>))>>)>>)),
+                           SPrint(EBin(op, EVar(A), EVar(Bn)))>>
+
 \* parameter tuples <<family, op-or-context, i, j, form>>
 C16Params ==
+    { <<"eqnest", op, i, j, how>> : op \in {"==", "!="}, i \in KIdx, j \in KIdx, how \in {"list", "obj", "deep"} }
+    \cup
     { <<"op", OpList[o], i, j, "plain">> : o \in 1 .. Len(OpList), i \in KIdx, j \in KIdx }
     \cup { <<"op", op, i, j, form>> : op \in AssignOps, i \in KIdx, j \in KIdx, form \in Forms \ {"plain"} }
     \cup { <<"ctx", cx, i, 0, "-">> : cx \in Contexts, i \in KIdx }
@@ -97,6 +108,7 @@ InFn(body) == <<SFn(G, <<>>, FALSE, body), SExpr(ECall(EVar(G), <<>>))>>
 
 C16ProgOf(p) ==
     CASE p[1] = "op"    -> OpProg(p[2], p[3], p[4], p[5])
+      [] p[1] = "eqnest" -> EqNest(p[2], p[3], p[4], p[5])
       [] p[1] = "ctx"   -> CtxProg(p[2], p[3])
       [] p[1] = "opfn"  -> InFn(OpProg(p[2], p[3], p[4], p[5]))
       [] p[1] = "ctxfn" -> InFn(CtxProg(p[2], p[3]))
@@ -131,6 +143,11 @@ TypeTable ==
              \* the message names the operator and both type names, in order
              /\ r.msg[2] = PS(op) /\ r.msg[4] = PS(TypeName(a)) /\ r.msg[6] = PS(TypeName(b))
 
+\* inside containers too: a mismatch (or two functions) is an error, equal kinds of data a boolean
+EqNestRule ==
+    (status.k # "running" /\ pi[1] = "eqnest") =>
+        IF InDomain("==", ExVal(pi[3]).k, ExVal(pi[4]).k) THEN status.k = "done"
+        ELSE status.k = "failed" /\ status.diag.kind = "InvalidEqOpTypes"
 ASSUME TypeNamesOk
 ASSUME TypeTable
 =============================================================================
